@@ -232,6 +232,26 @@ def run(ctx):
                             "state_TVN": cfg["states"][0] if cfg["states"] else None,
                             "dA/dV_enclosure": encl(e1[0][1]) if e1 and e1[0] else None,
                             "reported_minus_p_res": cfg["api"][0]["a1"][1] if cfg["api"] and cfg["api"][0] else None})
+    # --- caloric properties of the State layer: getters vs the expressions of CaloricC01.v (interval goals), and vs Jacobian quotients
+    #     of numerical partial derivatives of neighbouring states
+    cal = impl.get("caloric", [])
+    cal_goals = 0
+    for g in cal:
+        r = res.get(os.path.join(ctx.gen, g["file"] + ".v"))
+        obligations += len(g["api"])
+        cal_goals += len(g["api"])
+        if r is not None and r["rc"] == 0:
+            discharged += len(g["api"])
+        else:
+            V.violation(ctx, "%s: a caloric getter of the State layer (c_v, c_p, Joule-Thomson, compressibilities, expansivity, Grueneisen) is not "
+                        "the expression of CaloricC01.v at T,V,N = %s: %s" % (g["config"], g["state_TVN"], (V.coq_error(r["out"]) if r else "no output") or ""),
+                        {"broken": "gen/C01/%s.v (interval goals m_* vs getters)" % g["file"], "state": g,
+                         "coq_error": V.coq_error(r["out"]) if r else None}, found_input=True)
+        if g["fd_failures"]:
+            V.violation(ctx, "%s: %s reported %r but the Jacobian quotient of numerical partial derivatives of neighbouring states gives %r"
+                        % (g["config"], g["fd_failures"][0]["quantity"], g["fd_failures"][0]["reported"],
+                           g["fd_failures"][0]["from_numerical_partial_derivatives"]),
+                        {"broken": "oracle: caloric properties vs numerical Jacobians", "state": g}, found_input=True)
     for oc in impl.get("oracle_only", []):
         fd_states += oc["fd"]["states"]
         if oc["fd"]["failures"]:
@@ -251,6 +271,7 @@ def run(ctx):
         "widest_relative_enclosure": stats["relwidth"],
         "programs_with_reinjected_f64_values": leaky,
         "finite_difference_oracle_states": fd_states,
+        "caloric_states": len(cal), "caloric_interval_goals": cal_goals,
         "configurations_with_the_finite_difference_oracle_only_(quick_tier)": [c["name"] for c in impl.get("oracle_only", [])],
         "tolerance": "reported value within rtol=%g*|value| + %g*ideal-gas-magnitude + enclosure width of the enclosure midpoint" % (RTOL, ATOL_IG),
         "samples": samples,
